@@ -234,3 +234,13 @@ Definition tbe (ref : utree) (boots : list utree) : outcome :=
       mkOut err (map (fun q => (is_tip (snd (snd q)),
                                 match fst q with None => nilv | Some a => qnat a end))
                      (combine acc es)).
+
+(** sup.IncrementProgress(): once per bootstrap tree that passed the checks, before the first
+    one that does not (none when the reference itself is refused) *)
+Fixpoint n_before_err (ref : utree) (boots : list utree) : nat :=
+  match boots with
+  | [] => 0
+  | b :: r => if no_err (boot_err ref b) then S (n_before_err ref r) else 0
+  end.
+Definition n_processed (ref : utree) (boots : list utree) : nat :=
+  if has_dup (tip_names ref) then 0 else n_before_err ref boots.
